@@ -132,7 +132,10 @@ type c15ev struct {
 func c15run(t *testing.T, cfg world.GWConfig, scriptA []Step, others [][]Step, orderSeed int64) (own []c15ev, all []world.Ev) {
 	bubble(t, func() {
 		w := world.New(cfg)
-		b := world.NewBroker(world.BrokerCfg{FirstID: 30000, Route: true})
+		// The broker closes 1 ms after a DISCONNECT: when it closes at once, whether the gateway still gets
+		// its DISCONNECT reply out to the client is a race inside that one session (seen 5 times in
+		// 20000 cases) - no business of this property, but it makes the baseline trace ambiguous.
+		b := world.NewBroker(world.BrokerCfg{FirstID: 30000, Route: true, CloseDelay: time.Millisecond})
 		sA := w.NewSession(peerHandler(PeerOpts{NoWillReply: true}), b.Handler())
 		var ss []*world.Session
 		for range others {
@@ -243,55 +246,88 @@ func c15bubbleCase(t *testing.T, r *rt.Run, c *rt.Case) {
 		sa = append(sa, s.String())
 	}
 	c.Desc = fmt.Sprintf("observed session: %s | with %d other sessions", strings.Join(sa, "; "), nOthers)
+	key := func(evs []c15ev) string { return strings.Join(c15canon(evs), "\n") }
+	orderSeed := int64(c.I) + r.Seed*1000003
 	solo1, _ := c15run(t, cfg, scriptA, nil, 1)
 	solo2, _ := c15run(t, cfg, scriptA, nil, 2)
-	a1, a2 := c15canon(solo1), c15canon(solo2)
-	if strings.Join(a1, "\n") != strings.Join(a2, "\n") {
-		// The cases of this check run one after the other and bisquitt uses no randomness: two
-		// solo runs of one script in fresh worlds can differ only through state that outlives
-		// a session, i.e. through what EARLIER sessions did.
-		i := 0
-		for i < len(a1) && i < len(a2) && a1[i] == a2[i] {
-			i++
-		}
-		x, y := "<end>", "<end>"
-		if i < len(a1) {
-			x = cutS(a1[i], 140)
-		}
-		if i < len(a2) {
-			y = cutS(a2[i], 140)
-		}
-		c.Violation("session-influenced|by-earlier-sessions|"+c15class(x, y), fmt.Sprintf("two solo runs of the same script against fresh Gateway values differ (event %d: %s vs %s): state left by earlier sessions changes what a session sends", i, x, y),
-			map[string]interface{}{"observed_script": sa, "first_run": a1, "second_run": a2})
-		return
-	}
-	crowd, all := c15run(t, cfg, scriptA, others, int64(c.I)+r.Seed*1000003)
-	a3 := c15canon(crowd)
+	crowd, all := c15run(t, cfg, scriptA, others, orderSeed)
+	a1 := c15canon(solo1)
 	r.Count("observed_session_events", len(a1))
 	r.Count("other_sessions", nOthers)
-	if strings.Join(a1, "\n") != strings.Join(a3, "\n") {
-		// first difference
+	soloSet := map[string]bool{key(solo1): true, key(solo2): true}
+	crowdSet := map[string]bool{key(crowd): true}
+	firstDiff := func(x, y []string) (int, string, string) {
 		i := 0
-		for i < len(a1) && i < len(a3) && a1[i] == a3[i] {
+		for i < len(x) && i < len(y) && x[i] == y[i] {
 			i++
 		}
-		alone, with := "<end>", "<end>"
-		if i < len(a1) {
-			alone = cutS(a1[i], 140)
+		p, q := "<end>", "<end>"
+		if i < len(x) {
+			p = cutS(x[i], 140)
 		}
-		if i < len(a3) {
-			with = cutS(a3[i], 140)
+		if i < len(y) {
+			q = cutS(y[i], 140)
 		}
-		var os []string
-		for k, o := range others {
-			var x []string
-			for _, s := range o {
-				x = append(x, s.String())
+		return i, p, q
+	}
+	if len(soloSet) > 1 || !soloSet[key(crowd)] {
+		// Something differs. A race inside the observed session itself (two legitimate variants of
+		// its own trace) must not be mistaken for interference, so the experiment is repeated:
+		// six more solo runs and three more runs beside the others.
+		r.Count("cases_repeated_after_a_difference", 1)
+		var solos [][]c15ev
+		solos = append(solos, solo1, solo2)
+		for k := 3; k <= 8; k++ {
+			sk, _ := c15run(t, cfg, scriptA, nil, int64(k))
+			solos = append(solos, sk)
+			soloSet[key(sk)] = true
+		}
+		for k := 0; k < 3; k++ {
+			ck, _ := c15run(t, cfg, scriptA, others, orderSeed)
+			crowdSet[key(ck)] = true
+		}
+		switch {
+		case len(soloSet) == len(solos):
+			// all eight solo runs pairwise different: not a two-way race but a drift - state that
+			// outlives sessions (the cases of this check run one after the other, bisquitt uses no randomness)
+			i, x, y := firstDiff(a1, c15canon(solo2))
+			c.Violation("session-influenced|by-earlier-sessions|"+c15class(x, y), fmt.Sprintf("eight solo runs of the same script against fresh Gateway values are all different (first two: event %d: %s vs %s): state left by earlier sessions changes what a session sends", i, x, y),
+				map[string]interface{}{"observed_script": sa, "first_run": a1, "second_run": c15canon(solo2)})
+		case len(soloSet) > 1:
+			overlap := false
+			for k := range crowdSet {
+				if soloSet[k] {
+					overlap = true
+				}
 			}
-			os = append(os, fmt.Sprintf("other %d: %s", k+1, cutS(strings.Join(x, "; "), 1500)))
+			if overlap || len(soloSet) > 1 {
+				c.Inconclusive(fmt.Sprintf("the observed session's own trace has %d variants in 8 solo runs (a race inside that session): no baseline", len(soloSet)))
+			}
+		default:
+			// one solo variant; every run beside the others differs from it?
+			disjoint := true
+			for k := range crowdSet {
+				if soloSet[k] {
+					disjoint = false
+				}
+			}
+			if disjoint {
+				a3 := c15canon(crowd)
+				i, alone, with := firstDiff(a1, a3)
+				var os []string
+				for k, o := range others {
+					var x []string
+					for _, s := range o {
+						x = append(x, s.String())
+					}
+					os = append(os, fmt.Sprintf("other %d: %s", k+1, cutS(strings.Join(x, "; "), 1500)))
+				}
+				c.Violation("session-influenced|"+c15class(alone, with), fmt.Sprintf("the observed session's traffic differs when other sessions run beside it (8 identical solo runs, %d runs beside the others, none equal to the solo trace): event %d alone = %s, with others = %s", 1+3, i, alone, with),
+					map[string]interface{}{"observed_script": sa, "others": os, "alone": a1, "with_others": a3, "trace": world.Strings(all, 300)})
+			} else {
+				c.Inconclusive("beside the other sessions the observed trace has several variants, one of them the solo trace (a race inside that session)")
+			}
 		}
-		c.Violation("session-influenced|"+c15class(alone, with), fmt.Sprintf("the observed session's traffic differs when other sessions run beside it: event %d alone = %s, with others = %s", i, alone, with),
-			map[string]interface{}{"observed_script": sa, "others": os, "alone": a1, "with_others": a3, "trace": world.Strings(all, 300)})
 	}
 	// nothing of the observed session may show up in another session's traffic
 	for _, e := range all {
@@ -568,5 +604,5 @@ func TestC15(t *testing.T) {
 		}
 		c15bubbleCase(t, r, c)
 	})
-	r.Finish("non-interference by differential replay: a static lock-step script (CONNECT, REGISTER/SUBSCRIBE/PUBLISH with registered, predefined and short IDs, broker messages, PINGREQ, a sleep cycle, time advances, DISCONNECT) is run against the real gateway session handler alone (twice, in fresh worlds, cases running one after the other: bisquitt uses no randomness, so a difference between the two solo traces means that state left behind by earlier sessions influences later ones and is reported) and then beside 1-7 other sessions of the same Gateway value (shared handler configuration and predefined-topic map) that run random scripts without time advances: same or different client IDs, AUTH packets, registrations of the same names, bursts of 20 subscriptions, random packets of all types, undecodable datagrams, sleep requests, broker close/garbage, shutdown of that session, DISCONNECT. Oracle: the observed session's own events are identical - one sequence per link direction plus the dial/close/end events, with bytes and virtual timestamps; packets of one direction at one virtual instant compared as a multiset, and none of its payloads appears on another session's links. Plus 3 real-socket cases: Gateway.ListenAndServe on loopback UDP with 2/6/8 peers (connecting one after the other) and a fake TCP broker: one broker connection per peer address, each carrying exactly that peer's client ID and messages; every peer receives only its own acknowledgements and the message the broker sent on its connection; then the even peers disconnect one after the other while the odd ones go on pinging and must be answered. In a third of the worlds authentication is on: the observed session sends its own credentials and a will in separate steps, the others send theirs in between.", nil)
+	r.Finish("non-interference by differential replay: a static lock-step script (CONNECT, REGISTER/SUBSCRIBE/PUBLISH with registered, predefined and short IDs, broker messages, PINGREQ, a sleep cycle, time advances, DISCONNECT) is run against the real gateway session handler alone (twice, in fresh worlds, cases running one after the other) and beside the others; on any difference the experiment is repeated (8 solo runs, 4 runs beside the others): eight pairwise different solo traces mean drift caused by state that outlives sessions (reported); one solo variant that no run beside the others reproduces means interference (reported); several variants of the session's own trace mean a race inside that session (inconclusive) and then beside 1-7 other sessions of the same Gateway value (shared handler configuration and predefined-topic map) that run random scripts without time advances: same or different client IDs, AUTH packets, registrations of the same names, bursts of 20 subscriptions, random packets of all types, undecodable datagrams, sleep requests, broker close/garbage, shutdown of that session, DISCONNECT. Oracle: the observed session's own events are identical - one sequence per link direction plus the dial/close/end events, with bytes and virtual timestamps; packets of one direction at one virtual instant compared as a multiset, and none of its payloads appears on another session's links. Plus 3 real-socket cases: Gateway.ListenAndServe on loopback UDP with 2/6/8 peers (connecting one after the other) and a fake TCP broker: one broker connection per peer address, each carrying exactly that peer's client ID and messages; every peer receives only its own acknowledgements and the message the broker sent on its connection; then the even peers disconnect one after the other while the odd ones go on pinging and must be answered. In a third of the worlds authentication is on: the observed session sends its own credentials and a will in separate steps, the others send theirs in between.", nil)
 }
